@@ -301,6 +301,14 @@ Hist3 ==
      m1 \in MutsSlim(1), o1 \in BetweenSlim, m2 \in MutsSlim(2),
      o2 \in BetweenSlim, m3 \in MutsSlim(3)}
 
+(* the same call made twice (every field equal), with and without an        *)
+(* observer in between and a different call in between: each call counts    *)
+HistTwice ==
+  IF Scope \notin {"c05"} THEN {} ELSE
+  {Prog(HistStart \o <<m>> \o o \o <<m>> \o FinalObs) : m \in Muts(1), o \in Between}
+  \cup {Prog(HistStart \o <<m>> \o <<m>> \o o \o <<m2>> \o <<m>> \o FinalObs) :
+          m \in MutsSlim(1), o \in BetweenSlim, m2 \in MutsSlim(2)}
+
 -----------------------------------------------------------------------------
 (* composition laws (C13) and child attribution in concatenations (C06)     *)
 SmsWith(t, segs, sources, contents, names, root) ==
@@ -768,7 +776,10 @@ C10Inners ==
    Raw("str", <<cA, cB, NL>>),
    Cached(Orig(<<cA, NL, cB>>)),
    \* mapped text that is blank lines only: no map with columns, a map without
-   Orig(<<NL, NL>>), CC(<<Raw("str", <<cB, NL>>), Orig(<<NL>>)>>)}
+   Orig(<<NL, NL>>), CC(<<Raw("str", <<cB, NL>>), Orig(<<NL>>)>>),
+   \* a line that starts mapped and ends unmapped, mapped lines after it (the replay has to report
+   \* the unmapped rest of the line where it starts)
+   CC(<<Orig(<<cA>>), Raw("str", <<cB, NL>>), Orig(<<cA, NL, cB>>)>>)}
 
 ObsOn(op, r) == [op |-> op, r |-> r]
 StreamOn(r, c) == [op |-> "stream", r |-> r, columns |-> c, final |-> FALSE]
@@ -1110,7 +1121,7 @@ C16Scope ==
 (* every budget up to a bound that covers these small trees                 *)
 ProgSet ==
   CASE Scope \in {"c01", "c02"} -> {Prog(<<Build(t)>> \o StreamObs) : t \in TreesSmall}
-    [] Scope = "c05" -> Hist2 \cup Hist3
+    [] Scope = "c05" -> Hist2 \cup Hist3 \cup HistTwice
     [] Scope = "c13" -> LawScope \cup LawScopeNamed \cup LawScopeTwice
     \* the content views of composite trees whose replacements sit on character boundaries
     \* (the c07 scope without its binary leaves: a position inside a character is outside C17's domain)
